@@ -33,6 +33,12 @@ fwdref = z3.Function("forwardref_of", Val, Val)            # refs.forwardref(<ty
 den = z3.Function("denotes", Val, Val)                     # what a pinned forward reference evaluates to
 is_fwd = z3.Function("is_forward_reference", Val, BoolS)
 is_literal = z3.Function("isliteral", Val, BoolS)
+is_unres = z3.Function("isunresolvable", Val, BoolS)
+
+
+def memberless(u):
+    """annotations that hold no member types to convert: Literal (holds values) and pass-through (unresolvable) annotations"""
+    return z3.Or(is_literal(u), is_unres(u))
 nchildren = z3.Function("n_children", Val, IntS)           # _level(u): args(u) ++ hints(u)
 child_var = z3.Function("child_var", Val, IntS, Val)
 child_type = z3.Function("child_type", Val, IntS, Val)
@@ -130,6 +136,7 @@ def make_interp(w: World):
     import inspect as _inspect
     I.stubs["typelib.py.inspection.unwrap"] = Stub("inspection.unwrap", lambda I, p, a, k: SV(unwrap_f(to_val(a[0]))),
                                                    "unwrap(t) = base(t) (proved: props/unwrap_contract.py)")
+    I.stubs["typelib.py.inspection.isunresolvable"] = Stub("inspection.isunresolvable", lambda I, p, a, k: SBool(is_unres(to_val(a[0]))), "isunresolvable (C17)")
     I.stubs["typelib.py.inspection.isliteral"] = Stub("inspection.isliteral", lambda I, p, a, k: SBool(is_literal(to_val(a[0]))), "isliteral (C17)")
     for nm in ("issubscriptedgeneric", "isstdlibtype"):
         I.stubs[f"typelib.py.inspection.{nm}"] = Stub(f"inspection.{nm}", (lambda nm: lambda I, p, a, k: SBool(uw.uf(nm, 1, BoolS)(to_val(a[0]))))(nm), f"{nm} (C17)")
@@ -305,7 +312,7 @@ def outer_inv(S, stack, vis, cyc, root, rank, clock):
         u = unwrap_f(ntype(p))
         c = child_type(u, i)
         row = z3.Select(edge, p)
-        return z3.Implies(z3.And(z3.Select(proc, p), z3.Not(is_literal(u)), i >= 0, i < nchildren(u), z3.Not(skipped(c))),
+        return z3.Implies(z3.And(z3.Select(proc, p), z3.Not(memberless(u)), i >= 0, i < nchildren(u), z3.Not(skipped(c))),
                           z3.Or(z3.Select(row, plain_node(u, i)), z3.And(z3.Select(row, cut_node(u, i)), z3.Select(cyc, cut_node(u, i)))))
     return [
         Q([Val, IntS], complete, name="O1-every-processed-node-has-a-predecessor-for-each-member", pool=[constish, nodeish]),
@@ -420,7 +427,7 @@ def obligations(chk):
         u = unwrap_f(ntype(p))
         c = child_type(u, i)
         row = z3.Select(edge, p)
-        chk.add(Ob(func, names[0], pid, hy + [z3.Select(proc, p), z3.Not(is_literal(u)), i >= 0, i < nchildren(u), z3.Not(skipped(c))],
+        chk.add(Ob(func, names[0], pid, hy + [z3.Select(proc, p), z3.Not(memberless(u)), i >= 0, i < nchildren(u), z3.Not(skipped(c))],
                    z3.Or(z3.And(z3.Select(row, plain_node(u, i)), z3.Not(z3.Select(cyc, plain_node(u, i)))),
                          z3.And(z3.Select(row, cut_node(u, i)), z3.Select(cyc, cut_node(u, i)), den(ntype(cut_node(u, i))) == c,
                                 den(nunw(cut_node(u, i))) == unwrap_f(c)))))
